@@ -31,6 +31,14 @@ class _Return(Exception):
         self.value = value
 
 
+class _Break(Exception):
+    pass
+
+
+class _Continue(Exception):
+    pass
+
+
 class LazyOpt:
     """An Optional field whose None-ness is symbolic; resolved (forked) on first load."""
     def __init__(self, isnone, value):
@@ -281,6 +289,12 @@ class Interp:
             return ModuleRef("ext", t)
         if kind == "assign":
             mod, node = t
+            if isinstance(node, (ast.Dict, ast.List, ast.Set, ast.DictComp, ast.ListComp, ast.SetComp)) or \
+                    (isinstance(node, ast.Call) and isinstance(node.func, ast.Name) and node.func.id in ("dict", "list", "set", "defaultdict", "OrderedDict")):
+                if isinstance(node, ast.List) and all(isinstance(e, ast.Constant) for e in node.elts):
+                    return self.eval(node, Env(mod))          # __all__-style constant lists
+                # module-level mutable state outlives every call: its content is arbitrary
+                return self.bi.arbitrary_global_container(mod, node)
             return self.eval(node, Env(mod))
         if kind == "extname":
             return self.bi.external_name(*t)
@@ -468,7 +482,14 @@ class Interp:
 
     def st_AugAssign(self, st, env):
         cur = self.eval(ast.copy_location(self._as_load(st.target), st), env)
-        v = self.binop(st.op, cur, self.eval(st.value, env))
+        rhs = self.eval(st.value, env)
+        if isinstance(st.op, ast.Add) and isinstance(cur, list) and not isinstance(cur, GeneratorList):
+            # list += iterable extends the SAME list object in place
+            self.heap_log.append(("mutate-list", id(cur), "+=", self.where()))
+            cur.extend(self.bi.iterate(rhs))
+            self.assign(st.target, cur, env)
+            return
+        v = self.binop(st.op, cur, rhs)
         self.assign(st.target, v, env)
 
     def _as_load(self, t):
@@ -516,7 +537,18 @@ class Interp:
             return
         for item in self.bi.iterate(it):
             self.assign(st.target, item, env)
-            self.exec_block(st.body, env)
+            try:
+                self.exec_block(st.body, env)
+            except _Break:
+                break
+            except _Continue:
+                continue
+
+    def st_Break(self, st, env):
+        raise _Break()
+
+    def st_Continue(self, st, env):
+        raise _Continue()
 
     def st_Raise(self, st, env):
         if st.exc is None or st.cause is not None:
@@ -797,5 +829,5 @@ class Interp:
         cur_self = self.frames[-1].vars.get("self") if self.frames else None
         fname = self.frames[-1].funcdef.name if self.frames and self.frames[-1].funcdef else ""
         self.heap_log.append(("store", o, attr, self.where(),
-                              bool(o.in_init and cur_self is o and fname == "__init__")))
+                              bool(o.in_init and cur_self is o and fname == "__init__"), id(v)))
         o.fields[attr] = v
